@@ -85,12 +85,12 @@ def load_known():
     return json.load(open(p)).get('findings', [])
 
 
-def run_rules(mod, prop, tier, repo, units, extra_flags=(), outdir=None):
+def run_rules(mod, prop, tier, repo, units, extra_flags=(), outdir=None, config_undef=()):
     # one private fact directory per run: checks of different properties may run concurrently
     os.makedirs(qb.BUILD, exist_ok=True)
     tmp = tempfile.mkdtemp(prefix='facts-%s-' % prop, dir=qb.BUILD)
     try:
-        files = qb.extract(units, repo=repo, outdir=tmp, extra_flags=extra_flags)
+        files = qb.extract(units, repo=repo, outdir=tmp, extra_flags=extra_flags, config_undef=config_undef)
         prog = qb.Program(files)
     finally:
         shutil.rmtree(tmp, ignore_errors=True)
@@ -234,8 +234,8 @@ def main(argv):
                     cunits = cfg.get('units') or units
                     cunits = [u for u in cunits if os.path.exists(os.path.join(qb.REPO, u))]
                     _p, c2 = run_rules(mod_for(cfg, mod), prop, tier, qb.REPO, cunits,
-                                       extra_flags=cfg['flags'],
-                                       outdir=None)
+                                       extra_flags=cfg.get('flags', ()),
+                                       outdir=None, config_undef=cfg.get('config_undef', ()))
                     if c2.error:
                         raise qb.AnalysisBroken(c2.error)
                     for r in c2.results:
@@ -244,7 +244,7 @@ def main(argv):
                             r['key'] = r['key']
                     only = cfg.get('rules')
                     res2 = [r for r in c2.results if only is None or r['rule'] in only]
-                    extra_runs.append({'config': cfg['name'], 'flags': cfg['flags'], 'obligations': len(res2),
+                    extra_runs.append({'config': cfg['name'], 'flags': list(cfg.get('flags', ())) + ['config.h without ' + u for u in cfg.get('config_undef', ())], 'obligations': len(res2),
                                        'not_ok': sum(1 for r in res2 if r['status'] != 'ok')})
                     ctx.results += [r for r in res2 if r['status'] != 'ok']
                 except qb.AnalysisBroken as ex:
